@@ -201,6 +201,46 @@ def main():
                 ds2, fonts2, _ = dsgen.family(r3, 2, lib)
                 out["var%d/%s/static-first" % (i, lib)] = sha(lambda: ufo2ft.compileTTF(fonts2[0]))
                 out["var%d/%s/vcff2-first" % (i, lib)] = sha(lambda: ufo2ft.compileVariableCFF2(ds2))
+        # the SAME options object (an ftConfig dict asking for GPOS compaction) handed to several compiles in a row, on a family
+        # with two unrelated blocks of class kerning (where compaction changes the GPOS bytes): variable twice, CFF2 after,
+        # a static master after -- against the same calls with fresh dicts on fresh sources
+        def kern_family(lib):
+            upper, lower = list("ABCDEFGH"), list("abcdefgh")
+            def m(k):
+                gl = []
+                for j, nm in enumerate(upper + lower):
+                    w = 300 + 60 * k
+                    gl.append({"name": nm, "unicodes": [ord(nm)], "width": Fr(500 + 10 * (j % 7) + 40 * k), "components": [], "anchors": [],
+                               "contours": [[(Fr(50), Fr(0), "line"), (Fr(50 + w), Fr(0), "line"), (Fr(50 + w), Fr(600), "line"), (Fr(50), Fr(600), "line")]]})
+                groups, kerning = {}, {}
+                for block in (upper, lower):
+                    firsts = block[::2]
+                    for j in range(0, len(block), 2):
+                        groups["public.kern1." + block[j]] = block[j:j + 2]
+                        groups["public.kern2." + block[j]] = block[j:j + 2]
+                    for a, x in enumerate(firsts):
+                        for b, y in enumerate(firsts):
+                            kerning[("public.kern1." + x, "public.kern2." + y)] = Fr(-(10 + 7 * a + 3 * b) * (k + 1))
+                return {"glyphs": gl, "glyphOrder": upper + lower, "groups": groups, "kerning": kerning, "lib": {}, "features": "",
+                        "info": {"familyName": "Hist", "styleName": "M%d" % k, "unitsPerEm": 1000, "ascender": 800, "descender": -200}}
+            return dsgen.make_designspace(random.Random(7), [m(0), m(1)], lib)
+        # (the key as fontTools exports it -- an Option object -- for one library, its plain name for the other)
+        from fontTools.otlLib.optimize.gpos import COMPRESSION_LEVEL as LEVEL_OPTION
+        show = lambda c: repr(sorted((getattr(k, "name", k), v) for k, v in c.items()))
+        for lib in ("ufoLib2", "defcon"):
+            LEVEL = LEVEL_OPTION if lib == "ufoLib2" else "fontTools.otlLib.optimize.gpos:COMPRESSION_LEVEL"
+            cfg = {LEVEL: 9}
+            out["cfg/%s/ftconfig-before" % lib] = show(cfg)
+            ds, fonts = kern_family(lib)
+            out["cfg/%s/vttf" % lib] = sha(lambda: ufo2ft.compileVariableTTF(ds, ftConfig=cfg))
+            out["cfg/%s/vttf-second" % lib] = sha(lambda: ufo2ft.compileVariableTTF(ds, ftConfig=cfg))
+            out["cfg/%s/vcff2-after" % lib] = sha(lambda: ufo2ft.compileVariableCFF2(ds, ftConfig=cfg))
+            out["cfg/%s/static-after-var" % lib] = sha(lambda: ufo2ft.compileTTF(fonts[0], ftConfig=cfg))
+            out["cfg/%s/ftconfig-after" % lib] = show(cfg)
+            ds2, fonts2 = kern_family(lib)
+            out["cfg/%s/static-first" % lib] = sha(lambda: ufo2ft.compileTTF(fonts2[0], ftConfig={LEVEL: 9}))
+            out["cfg/%s/vcff2-first" % lib] = sha(lambda: ufo2ft.compileVariableCFF2(ds2, ftConfig={LEVEL: 9}))
+            out["cfg/%s/static-uncompacted" % lib] = sha(lambda: ufo2ft.compileTTF(kern_family(lib)[1][0]))
         # fixtures
         data = os.path.join(os.environ.get("UFO2FT_REPO", "/repo"), "tests", "data")
         for name in (["TestFont.ufo", "TestMathFont-Regular.ufo", "ContextualAnchorsTest-Regular.ufo", "ColorTest.ufo", "MultipleAnchorClasses.ufo",
